@@ -371,7 +371,14 @@ func (j *job) events(out *kit.Out) int {
 		if j.Kind != "bin" && j.target == nil { // decode / navigation failed: nothing was displayed
 			return 0
 		}
-		out.Emit(Event{Kind: "dump", What: j.what, Perr: "fq reported an error instead of a dump: " + j.out, Rows: []Row{}, Buf: []int{}, UAddr: []string{}, USize: []string{}, VR: []string{}, VS: []string{}})
+		e := Event{Kind: "dump", What: j.what, Perr: "fq reported an error instead of a dump: " + j.out, Rows: []Row{}, Buf: []int{}, UAddr: []string{}, USize: []string{}, VR: []string{}, VS: []string{}}
+		if j.target != nil { // where the value lies in its buffer: a value whose range leaves its buffer (finding D28 of C03) cannot be shown
+			rootV := j.target.BufferRoot()
+			_, bl := bufBytes(rootV.RootReader)
+			st, ln := inner(j.target)
+			e.Start, e.Len, e.Blen = st, ln, bl
+		}
+		out.Emit(e)
 		return 1
 	}
 	ls, perr := splitDump(j.out, j.l, bar)
